@@ -1102,6 +1102,182 @@ def work_nz(chunk_id, payload):
     return part
 
 
+def work_cs(chunk_id, payload):
+    """sigma of a correlated parameter given on its own frequency grid.  The
+    same straight-line law sigma(f) is handed over three ways - one value per
+    calibration frequency, on the calibration grid passed explicitly, and on a
+    grid of 2..6 knots of its own that covers the band - to three otherwise
+    identical weighted solves of the same noisy data (a correlated reflect
+    that deviates from its correlate by about one sigma).  A spline through
+    samples of a straight line is that line, so the three solves must agree."""
+    seed, tier, count, binary, workroot = payload
+    rng = np.random.default_rng([seed, chunk_id, 1006])
+    part = new_part()
+    cases, meta = [], {}
+    types = ("T8", "U8", "TE10", "UE10", "UE14", "E12")
+    for k in range(count):
+        ctype = types[(chunk_id + k) % len(types)]
+        p = int(rng.choice([1, 1, 2]))
+        F = int(rng.integers(2, 6))
+        fmin = 10.0 ** rng.uniform(6, 9.5)
+        fmax = fmin * rng.uniform(1.5, 6)
+        sc = None
+        for attempt in range(6):
+            c = NoisyScenario(ctype, p, p, F, rng, fmin=fmin, fmax=fmax,
+                              form="m")
+            c.sufficient_recipe(extras=int(rng.integers(1, 3)))
+            c.choose_entries(form="m")
+            ok, kappa = c.well_determined(100.0)
+            if ok:
+                sc = c
+                break
+        if sc is None:
+            bump(part, "cs_skipped_not_well_determined")
+            continue
+        fr = np.array(sc.freqs, dtype=float)
+        fa, fb = float(fr[0]), float(fr[-1])
+        span = fb - fa
+        s0 = 10.0 ** rng.uniform(-3, -1.5)
+        kk = rng.uniform(-0.6, 2.0)
+
+        def sig(f):
+            return s0 * (1.0 + kk * (np.asarray(f, dtype=float) - fa) / span)
+        base = calgen.Param("vector", (crand(rng) * 0.4 + 0.05 * crand(
+            rng, F)).astype(complex))
+        truth = base.values + sig(fr) * crand(rng, F) / np.sqrt(2)
+        cp = calgen.Param.correlated(truth, base, s0)
+        stds = []
+        for _ in range(2):
+            st = sc.add_reflect([int(rng.integers(1, p + 1))], [cp])
+            st.entry, st.form = "single_reflect", "m"
+            st.full_rows = st.full_cols = True
+            st.use_null_map = False
+            stds.append(st)
+        nf = 10.0 ** rng.uniform(-4.5, -3.5)
+        for st in sc.stds:
+            st.noise = [(lambda a: (lambda M: nf * a))(crand(rng, (p, p)) /
+                                                       np.sqrt(2))
+                        for f in range(F)]
+        n = int(rng.integers(2, 7))
+        lo = fa - span * rng.uniform(0.0, 0.3)
+        hi = fb + span * rng.uniform(0.0, 0.3)
+        if rng.random() < 0.25:
+            lo = fa
+        if rng.random() < 0.25:
+            hi = fb
+        knots = knot_vector(rng, n, lo, hi)
+        s = R.Script()
+        lines = {}
+        s.op("vc=vnacal_create")
+        uid = [0]
+        runs = [("null", "NULL", sig(fr)), ("cal", "@freq", sig(fr)),
+                ("own", list(knots), sig(knots))]
+        s.rvec("cs_nf", [nf] * F)
+        for ri, (rname, sf, sv) in enumerate(runs):
+            vn = "vn%d" % ri
+            calgen_reset(sc)
+            cp.var = None
+            base.var = None
+            cp.sigma_freqs, cp.sigma_values = sf, sv
+            sc.emit_header(s, vn=vn, create=False)
+            lines["err%d" % ri] = s.op(
+                "vnacal_new_set_m_error $%s NULL %d @cs_nf NULL" % (vn, F))
+            s.op("vnacal_new_set_pvalue_limit $%s 0x1p-1000" % vn)
+            lines["adds%d" % ri] = [sc.emit_std(s, st, i, vn=vn, uid=uid)
+                                    for i, st in enumerate(sc.stds)]
+            lines["solve%d" % ri] = s.op("vnacal_new_solve $%s" % vn)
+            lines["val%d" % ri] = s.op(
+                "vnacal_get_parameter_values $vc %s @freq" % cp.var)
+            lines["cal%d" % ri] = s.op(
+                "ci%d=vnacal_add_calibration $vc \"%s\" $%s" % (ri, rname, vn))
+        s.op("vd=vnadata_alloc")
+        duts = sc.rand_dut()
+        for ri in range(3):
+            lines["apply%d" % ri] = sc.emit_apply(s, duts, "x", form="m",
+                                                  ci="$ci%d" % ri,
+                                                  tag="d%d" % ri)
+        cid = "cs%d_%d" % (chunk_id, k)
+        cases.append((cid, s.text()))
+        meta[cid] = (sc, kappa, n, knots, lines)
+    wd = os.path.join(workroot, "cs%d" % chunk_id)
+    results = R.run_cases(binary, cases, wd, timeout=1200)
+    for cid, text in cases:
+        res = results[cid]
+        sc, kappa, n, knots, lines = meta[cid]
+        v, inc = R.standard_violations(res, text, PROP)
+        part["violations"] += v
+        part["inconclusive"] += inc
+
+        def bad(what, desc):
+            part["violations"].append(dict(
+                key="%s:%s" % (PROP, what),
+                desc="%s %dx%d, %d calibration frequencies %r..%r, sigma "
+                     "grid of %d points %r..%r: %s" % (
+                         sc.ctype, sc.p, sc.p, sc.F, sc.freqs[0], sc.freqs[-1],
+                         n, knots[0], knots[-1], desc),
+                script=text))
+        S, P = [], []
+        usable = True
+        for ri in range(3):
+            adds = [res.ev(ln) for ln in lines["adds%d" % ri]]
+            if any(e is None for e in adds):
+                usable = False
+                break
+            refused = [e for e in adds if e.get("ret") != 0]
+            if refused:
+                bad("covering-sigma-grid-refused:vnacal_new_add",
+                    "a correlated standard whose sigma grid covers the band "
+                    "was refused: %s" % str(refused[0])[:300])
+                usable = False
+                break
+            e = res.ev(lines["solve%d" % ri])
+            if e is None or e.get("ret") != 0:
+                bump(part, "cs_solve_failed")
+                usable = False
+                break
+            la, ld = lines["apply%d" % ri]
+            d = res.ev(ld)
+            pv = res.ev(lines["val%d" % ri])
+            if (res.ev(la) or {}).get("ret") != 0 or d is None or \
+                    "out" not in d or pv is None or \
+                    not isinstance(pv.get("ret"), list):
+                usable = False
+                break
+            S.append([np.array([cval(x) for x in d["out"]["data"][f]])
+                      for f in range(sc.F)])
+            P.append(np.array([cval(x) for x in pv["ret"]]))
+        if not usable:
+            continue
+        part["evaluations"] += 1
+        bump(part, "cs_scenarios")
+        bump(part, "cs_knots:%d" % min(n, 6))
+        part["distinct"].add(("cs", sc.ctype, sc.p, sc.F, n))
+        for ri, nm, nk in ((2, "its own grid of %d points" % n, n),
+                           (1, "the calibration grid passed explicitly "
+                               "(%d points)" % sc.F, sc.F)):
+            err = max(float(np.max(np.abs(S[ri][f] - S[0][f])))
+                      if np.all(np.isfinite(S[ri][f])) else float("inf")
+                      for f in range(sc.F))
+            perr = float(np.max(np.abs(P[ri] - P[0]))) \
+                if np.all(np.isfinite(P[ri])) else float("inf")
+            peak(part, "max_sigma_grid_difference", max(err, perr)
+                 if np.isfinite(max(err, perr)) else 1e300)
+            if not (max(err, perr) <= TOL_NOISE):
+                bad("linear-sigma-not-reproduced:%dknots" % min(nk, 6),
+                    "the same linear sigma law of a correlated parameter "
+                    "given on %s and per calibration frequency gives "
+                    "corrected S differing by %.3g and solved parameter "
+                    "values differing by %.3g (limit %.1g)" % (
+                        nm, err, perr, TOL_NOISE))
+                break
+        if len(part["samples"]) < 1:
+            part["samples"].append(dict(
+                part="cs", type=sc.ctype, ports=sc.p,
+                grid=[float(x) for x in sc.freqs],
+                sigma_grid=[float(x) for x in knots]))
+    return part
+
+
 def calgen_reset(sc):
     for st in sc.stds:
         for row in st.sp:
@@ -1208,7 +1384,8 @@ def work_pk(chunk_id, payload):
     return part
 
 
-WORKERS = dict(pv=work_pv, ap=work_ap, rg=work_rg, nz=work_nz, pk=work_pk)
+WORKERS = dict(pv=work_pv, ap=work_ap, rg=work_rg, nz=work_nz, pk=work_pk,
+               cs=work_cs)
 
 
 def dispatch(chunk_id, payload):
@@ -1225,6 +1402,7 @@ def main():
             ("ap", 16 if quick else 64, int((30 if quick else 300) * sc)),
             ("rg", 16 if quick else 64, int((120 if quick else 800) * sc)),
             ("nz", 16 if quick else 64, int((20 if quick else 200) * sc)),
+            ("cs", 16 if quick else 64, int((12 if quick else 120) * sc)),
             ("pk", 8 if quick else 16, int((200 if quick else 2000) * sc))]
     payloads = []
     for kind, nch, per in plan:
@@ -1233,7 +1411,7 @@ def main():
         for i in range(nch):
             payloads.append((kind, i, (chk.seed, chk.tier, max(1, per), binary,
                                        chk.workroot)))
-    order = {"nz": 0, "ap": 1, "rg": 2, "pv": 3, "pk": 4}
+    order = {"nz": 0, "cs": 0, "ap": 1, "rg": 2, "pv": 3, "pk": 4}
     payloads.sort(key=lambda p: order[p[0]])
     one_per_part = {}
     for part in R.pmap(dispatch, payloads):
